@@ -4,6 +4,7 @@
 -/
 import Rtp.Proofs.Leb128
 import Rtp.Proofs.Obu
+import Rtp.Proofs.AV1RT
 namespace Rtp.Props.C13
 open Rtp Rtp.Model Rtp.Model.AV1 Rtp.Spec.Av1Rtp
 
@@ -77,5 +78,90 @@ theorem c13_obumar (h : ObuHeader) : Pred.C13.mar h (marObs h) = true := by
     have h6 := (parse_fields _ _ h5).2
     simp [hwf, h5, Res.coarse, marshal_length, h6]
   · simp [hwf]
+
+/-! ### aggregation rules, denotation, receive side, round trip
+
+  `hleb : LebGoSpec` (ReadLeb128 agrees with the specification on what WriteToLeb128 wrote, below
+  2^56) is proved as `Rtp.Model.readLebGo_writeLeb`; the integrator instantiates it. -/
+
+/-- Every MTU ≥ 2 and EVERY input byte string (not only well-formed OBU sequences): the payloads
+    obey the aggregation rules — each has the shape its W announces (W = number of elements, or
+    W = 0 with every element length-prefixed), fits the MTU, Z equals the previous packet's Y, the
+    last Y is 0, no element is empty, every transmitted OBU has its size flag cleared, and OBUs
+    whose extension headers carry different temporal or spatial ids never share a packet. -/
+theorem c13_rules (mtu : UInt16) (hm : 2 ≤ mtu.toNat) (data : Bytes) :
+    rulesOK mtu.toNat (AV1.payload mtu data) = true := by
+  have hs : mtu.toNat ≤ 65535 := by have := mtu.toNat_lt; omega
+  rw [payload_eq mtu data hm]
+  exact payload_rules mtu.toNat hm hs data
+
+/-- What the payloads denote (elements by W/length fields, fragments joined across Y → Z) is the
+    input OBU sequence with temporal delimiters and tile lists removed and size fields removed. -/
+theorem c13_denotes (hleb : LebGoSpec) (mtu : UInt16) (hm : 2 ≤ mtu.toNat) (obus : List Obu)
+    (hwf : obusWF obus = true) :
+    denote (AV1.payload mtu (serialise obus)) = some (normalise obus) := by
+  have hs : mtu.toNat ≤ 65535 := by have := mtu.toNat_lt; omega
+  rw [payload_eq mtu _ hm, payload_denote mtu.toNat hm hs,
+    walk_serialise hleb obus hwf _ (Nat.le_refl _), flushedOf_map]
+
+/-- the same for an arbitrary byte string: the OBUs the scanner of Payload finds, minus the dropped ones -/
+theorem c13_denotes_stream (mtu : UInt16) (hm : 2 ≤ mtu.toNat) (data : Bytes) :
+    denote (AV1.payload mtu data) = some (flushedOf (walk data.length data)) := by
+  have hs : mtu.toNat ≤ 65535 := by have := mtu.toNat_lt; omega
+  rw [payload_eq mtu _ hm, payload_denote mtu.toNat hm hs]
+
+/-- Receive side, for EVERY list of well-shaped packets (not only the payloader's): if the packets
+    are Z/Y-chained, their elements non-empty, and every OBU they denote has a readable header
+    without size field and is neither temporal delimiter nor tile list, then a fresh
+    AV1Depacketizer succeeds on every payload and delivers, all in all, the denoted OBUs with their
+    size fields put back; a fresh AV1Packet shows exactly the fields and elements of each packet;
+    and one frame.AV1 assembler returns exactly the denoted OBUs. -/
+theorem c13_depack (hleb : LebGoSpec) (pks : List Pk) (hgood : ∀ p ∈ pks, PkGood p)
+    (hchain : zyChain false (pks.map Pk.toPacket) = true)
+    (hunits : ∀ u ∈ units (pks.map Pk.toPacket), goodUnit u.bytes) :
+    (∃ outs : List Bytes, (depFeed {} (pks.map Pk.encode)).1 = outs.map Res.ok ∧
+        outs.flatten = ((units (pks.map Pk.toPacket)).map (fun u => sizedOf u.bytes)).flatten) ∧
+    (∀ p ∈ pks, viewOf p.encode = .ok { z := p.z, y := p.y, w := p.w, n := p.n, elems := p.elems }) ∧
+    (framesOf [] (pks.map Pk.encode)).flatten = (units (pks.map Pk.toPacket)).map (·.bytes) ∧
+    denote (pks.map Pk.encode) = some ((units (pks.map Pk.toPacket)).map (·.bytes)) :=
+  ⟨DepackRT.depFeed_encode hleb pks hgood hchain hunits,
+   fun p hp => FramesRT.viewOf_encode hleb p (hgood p hp),
+   FramesRT.framesOf_encode hleb pks hgood hchain,
+   denote_encode pks (fun p hp => (hgood p hp).shape)⟩
+
+/-- kind `c13.rt`: for every MTU ≥ 2 and every well-formed OBU sequence (any types, with or without
+    extension header, last OBU with or without size field) the predicate the harness evaluates on
+    the real code holds of the model: rules, denotation, element structure seen by AV1Packet,
+    OBUs reassembled by frame.AV1, OBUs with size fields delivered by AV1Depacketizer. -/
+theorem c13_roundtrip (hleb : LebGoSpec) (mtu : UInt16) (hm : 2 ≤ mtu.toNat) (obus : List Obu)
+    (hwf : obusWF obus = true) :
+    Pred.C13.rt mtu.toNat obus (rtObs mtu (serialise obus)) = true :=
+  rt_pred hleb mtu hm obus hwf
+
+/-- the round trip spelled out without the predicate -/
+theorem c13_roundtrip_spec (hleb : LebGoSpec) (mtu : UInt16) (hm : 2 ≤ mtu.toNat) (obus : List Obu)
+    (hwf : obusWF obus = true) :
+    (∃ outs : List Bytes,
+      (depFeed {} (AV1.payload mtu (serialise obus))).1 = outs.map Res.ok ∧
+      outs.flatten = (normaliseSized obus).flatten) ∧
+    (framesOf [] (AV1.payload mtu (serialise obus))).flatten = normalise obus := by
+  have hs : mtu.toNat ≤ 65535 := by have := mtu.toNat_lt; omega
+  obtain ⟨hgood, hchain, hbytes, hunits, hsized⟩ := payload_facts hleb mtu.toNat hm hs obus hwf
+  obtain ⟨outs, hd1, hd2⟩ := DepackRT.depFeed_encode hleb _ hgood hchain hunits
+  rw [payload_eq mtu _ hm]
+  refine ⟨⟨outs, hd1, by rw [hd2, hsized]⟩, ?_⟩
+  rw [FramesRT.framesOf_encode hleb _ hgood hchain, hbytes]
+
+/-- non-vacuity: sequence header, temporal delimiter, two frames on layers (0,1) and (0,2), the last
+    without size field — well-formed, and at MTU 8 it takes four packets (a new packet per layer) -/
+example :
+    obusWF [⟨⟨1, none, true, false⟩, [0xAA]⟩, ⟨⟨2, none, true, false⟩, []⟩,
+            ⟨⟨6, some ⟨0, 1, 0⟩, true, false⟩, [1, 2, 3, 4, 5, 6, 7, 8]⟩,
+            ⟨⟨6, some ⟨0, 2, 0⟩, false, false⟩, [9]⟩] = true ∧
+    AV1.payload 8 (serialise [⟨⟨1, none, true, false⟩, [0xAA]⟩, ⟨⟨2, none, true, false⟩, []⟩,
+            ⟨⟨6, some ⟨0, 1, 0⟩, true, false⟩, [1, 2, 3, 4, 5, 6, 7, 8]⟩,
+            ⟨⟨6, some ⟨0, 2, 0⟩, false, false⟩, [9]⟩]) =
+      [[0x18, 0x08, 0xAA], [0x50, 0x34, 0x08, 1, 2, 3, 4, 5], [0x90, 6, 7, 8], [0x10, 0x34, 0x10, 9]] := by
+  decide +kernel
 
 end Rtp.Props.C13
